@@ -365,6 +365,36 @@ func wakeNilBranch(p *packages.Package) string {
 	return res
 }
 
+// holdsAwaiter: is the variable assigned, somewhere in fd, from PublishAwaiter(..) or from a helper of the
+// package that calls it
+func holdsAwaiter(p *packages.Package, fd *ast.FuncDecl, v *ast.Ident) bool {
+	obj := p.TypesInfo.Uses[v]
+	if obj == nil {
+		obj = p.TypesInfo.Defs[v]
+	}
+	res := false
+	ast.Inspect(fd.Body, func(n ast.Node) bool {
+		as, ok := n.(*ast.AssignStmt)
+		if !ok {
+			return true
+		}
+		for i, l := range as.Lhs {
+			id, ok := l.(*ast.Ident)
+			if !ok || i >= len(as.Rhs) || (p.TypesInfo.Uses[id] != obj && p.TypesInfo.Defs[id] != obj) {
+				continue
+			}
+			inspectInline(p, as.Rhs[i], func(m ast.Node) bool {
+				if c, ok := m.(*ast.CallExpr); ok && exprName(c.Fun) == "PublishAwaiter" {
+					res = true
+				}
+				return true
+			})
+		}
+		return true
+	})
+	return res
+}
+
 // the RETRY loop of GetSubscriptionMessages.execute: does the assignment `pubAwaiter = PublishAwaiter(..)`
 // come before the first runTx call of the loop body, and which select cases loop again
 func pullLoopFacts(p *packages.Package) (registersFirst bool, cases []string) {
@@ -413,6 +443,10 @@ func pullLoopFacts(p *packages.Package) (registersFirst bool, cases []string) {
 							name = exprName(ue.X)
 							if c, ok := ue.X.(*ast.CallExpr); ok {
 								name = exprName(c.Fun)
+							}
+							// whatever the variable that holds the awaiter is called, the case reads "pubAwaiter"
+							if id, ok := ue.X.(*ast.Ident); ok && holdsAwaiter(p, fd, id) {
+								name = "pubAwaiter"
 							}
 						}
 					}
@@ -485,7 +519,7 @@ func nextAttemptOrders(p *packages.Package) []string {
 	if fd == nil {
 		return res
 	}
-	ast.Inspect(fd.Body, func(n ast.Node) bool {
+	inspectInline(p, fd.Body, func(n ast.Node) bool {
 		c, ok := n.(*ast.CallExpr)
 		if !ok {
 			return true
@@ -841,14 +875,41 @@ func streamerTickerFloors(p *packages.Package) []int64 {
 					floors[exprName(be.X)] = c
 				}
 			}
+		case *ast.AssignStmt:
+			// x = max(x, C)
+			if len(x.Lhs) == 1 && len(x.Rhs) == 1 {
+				if c, v := maxFloor(p, x.Rhs[0]); c > 0 && v == exprName(x.Lhs[0]) {
+					floors[v] = c
+				}
+			}
 		case *ast.CallExpr:
 			if exprName(x.Fun) == "time.NewTicker" && len(x.Args) == 1 {
-				res = append(res, floors[exprName(x.Args[0])])
+				if c, _ := maxFloor(p, x.Args[0]); c > 0 { // NewTicker(max(x, C))
+					res = append(res, c)
+				} else {
+					res = append(res, floors[exprName(x.Args[0])])
+				}
 			}
 		}
 		return true
 	})
 	return res
+}
+
+// maxFloor: for `max(v, C)` / `max(C, v)` with a constant C, (C, name of v); else (0, "")
+func maxFloor(p *packages.Package, e ast.Expr) (int64, string) {
+	c, ok := e.(*ast.CallExpr)
+	if !ok || exprName(c.Fun) != "max" || len(c.Args) != 2 {
+		return 0, ""
+	}
+	for i := 0; i < 2; i++ {
+		if tv, ok := p.TypesInfo.Types[c.Args[i]]; ok && tv.Value != nil {
+			if v, ok := constant.Int64Val(constant.ToInt(tv.Value)); ok {
+				return v, exprName(c.Args[1-i])
+			}
+		}
+	}
+	return 0, ""
 }
 
 // services.monitorPusher: which context the returned monitor embeds — "errgroup" when it is the
